@@ -370,6 +370,16 @@ func osfsExec(c *Ctx, op string) {
 				opErr = afs.Chmod(rp, 0700)
 			case "settimes":
 				opErr = afs.SetTimesNano(rp, time.Unix(12345, 0), time.Unix(12345, 0))
+			case "settimesl":
+				opErr = afs.SetTimesLNano(rp, time.Unix(12346, 0), time.Unix(12346, 0))
+			case "lchown":
+				opErr = afs.Lchown(rp, 4141, 4242)
+			case "mklink":
+				opErr = afs.Mklink(rp.Join(fs.MustRelPath("newlink")), "anywhere")
+			case "mkfifo":
+				opErr = afs.Mkfifo(rp.Join(fs.MustRelPath("newfifo")), 0644)
+			case "mkdev":
+				opErr = afs.MkdevChar(rp.Join(fs.MustRelPath("newdev")), 1, 3, 0600)
 			case "readdir":
 				_, opErr = afs.ReadDirNames(rp)
 			case "readlink":
@@ -404,7 +414,7 @@ func osfsExec(c *Ctx, op string) {
 			}
 		}
 		// the changed object is the one the kernel's in-root resolution names
-		if opErr == nil && ke == nil && (name == "chmod" || name == "settimes") {
+		if opErr == nil && ke == nil && (name == "chmod" || name == "settimes" || name == "settimesl" || name == "lchown") {
 			for _, p := range chg {
 				d, i, e := identity(filepath.Join(outer, p))
 				if e == nil && (d != kd || i != ki) {
@@ -660,7 +670,7 @@ func osfsEngine(c *Ctx) {
 		corpus = append(corpus, chain)
 	}
 	paths := []string{"d/l1", "d/f", "c0", "c10", ".", "a", "b", "d", "d/a", "l1", "l2", "l1/a", "l2/a", "d/l1", "d/l1/a", "sub", "sub/a", "f", "f/x", "nope", "l1/..", "d/sub/a", "l1/l2", "deep/er", "secret"}
-	ops := []string{"stat", "lstat", "open", "openx", "mkdir", "chmod", "settimes", "readdir", "readlink"}
+	ops := []string{"stat", "lstat", "open", "openx", "mkdir", "chmod", "settimes", "readdir", "readlink", "settimesl", "lchown", "mklink", "mkfifo", "mkdev"}
 	for k := 0; k < nTrees+len(corpus); k++ {
 		var ns []osNode
 		if k < len(corpus) {
@@ -679,7 +689,7 @@ func osfsEngine(c *Ctx) {
 		dps := derivedPaths(ns)
 		ps = append(append([]string(nil), ps...), dps...)
 		for _, p := range dps {
-			for _, o := range []string{"open", "openx", "stat", "chmod", "readlink"} {
+			for _, o := range []string{"open", "openx", "stat", "chmod", "readlink", "settimesl", "lchown", "mklink"} {
 				osfsExec(c, fmt.Sprintf("osfs %s op %s %s", tt, o, hx(p)))
 			}
 		}
